@@ -963,6 +963,12 @@ def _run_read(ctx, obj, rq, frames, info):
              labels16=max(d['nums']) > 255, region=bool(rq.get('region') or rq.get('vrange')),
              spelling=rq.get('spelling', 'list'))
     site = f"{entry}/{d['type']}/{'combine' if rq['combine'] else 'stack'}"
+    if st != 'ok' and val.split(':')[0] in ('IntegrityError', 'OperationalError', 'ProgrammingError', 'InterfaceError',
+                                             'DatabaseError', 'InternalError', 'NotSupportedError') \
+            and 'shared_seg' not in (d.get('third') or []):
+        # a refusal has to come from the library, not from its database: an sqlite3 error means a request reached a query it
+        # should have been stopped before (or a state left by an earlier read) — ok-vs-refused alone would count it as a refusal
+        ctx.fail(case, 'refused with an internal database error: ' + val, site=site + '/internal-error')
     if must_refuse_indexing:
         if st == 'ok':
             ctx.fail(case, 'read by source accepted although the object does not state that spatial locations are preserved '
